@@ -34,6 +34,12 @@ def cases(tier, rng):
             continue
         line = "c15 %s %s %d 1" % (c, st, n)
         cs.append({"line": line, "key": line, "model": False, "tags": {"carrier": c, "stall": st + "+expired"}})
+    # twenty peers stalled at the same point at the same time (a bound on pending handshakes must not shut the others out)
+    for c, st in (("tcp", "between"), ("kcp", "halfline"), ("tcp+tls", "connect"), ("ws", "connect")):
+        if tier != "thorough" and c == "ws":
+            continue
+        line = "c15 %s %s %d 0 20" % (c, st, n)
+        cs.append({"line": line, "key": line, "model": False, "tags": {"carrier": c, "stall": st + "x20"}})
     return cs
 
 
